@@ -13,7 +13,7 @@ from .interp import (
 )
 from .machine import BREAK, CONTINUE, NORMAL, Interp, _EdgeChar, _ListIter, _MISSING
 from .sym import (
-    Fold, Opaque, Poison, Restart, SBool, Seg, SInt, Unsupported, ctx, has_seg, mk_bool, mk_int,
+    Fold, Opaque, Poison, Restart, SBool, Seg, SInt, SymSet, Unsupported, ctx, has_seg, mk_bool, mk_int,
     sym_len, tagstr, zint,
 )
 from .tmpl import STRLIKE, Hole, Tmpl, is_symstr, tcat
@@ -325,7 +325,7 @@ class Machine(Interp):
     def e_SetComp(self, node, fr):
         lst = yield from self.e_ListComp(node, fr)
         if has_seg(lst) or contains_symbolic(lst, 1):
-            raise Unsupported("set comprehension over symbolic values")
+            return self._alloc(SymSet(lst))
         return self._alloc(set(lst))
 
     def e_DictComp(self, node, fr):
@@ -704,6 +704,8 @@ class Machine(Interp):
             return [("one", v) for v in self.drain(it)]
         if isinstance(it, _ListIter):
             it = it.lst
+        if isinstance(it, SymSet):
+            ctx().log("nondeterministic-iteration", "set", len(it))
         if isinstance(it, list) or (isinstance(it, tuple)):
             out = []
             for x in it:
